@@ -2016,6 +2016,14 @@ int user_parser (char *buff) {
 
       last_verb = 0;
 
+      /* The verb function destructed the command giver: all its sentences
+       * (s included) are back on the free list, do not walk on. */
+      if (save_command_giver->flags & O_DESTRUCTED)
+        {
+          illegal_sentence_action = save_illegal_sentence_action;
+          return 1;
+        }
+
       /* was this the right verb? */
       if (ret == 0)
         {
